@@ -271,3 +271,91 @@ Qed.
 
 Lemma Sok_all : forall n, Sok n.
 Proof. intro n. apply spec_ok, Uok_all. Qed.
+
+(* ------------------------------------------------- constraints of a type *)
+Definition not_lparen (r : list token) : Prop :=
+  match r with TSym LParen :: _ => False | _ => True end.
+
+Definition pp_parens (e : constr) : list token := Y LParen :: pp_constr e ++ [Y RParen].
+
+Definition wf_spec1 (x : constr) : bool := wf_c LSpec x && negb (is_set x).
+
+Lemma unwrap_mk : forall x, is_set x = false -> unwrap_set (mk_constraint x) = x.
+Proof. intros x H. rewrite (mk_constraint_notset x H). reflexivity. Qed.
+
+Lemma many_ok : forall cs n k r,
+  cs <> [] -> forallb wf_spec1 cs = true ->
+  length (flat_map pp_parens cs) < n -> length cs <= k -> not_lparen r ->
+  p_many n k (flat_map pp_parens cs ++ r) = Some (cs, r).
+Proof.
+  induction cs as [|x cs IH]; intros n k r Hne Hall Hlen Hk Hr; [congruence|].
+  cbn [forallb] in Hall. apply andb_prop in Hall. destruct Hall as [Hx Hall].
+  unfold wf_spec1 in Hx. apply andb_prop in Hx. destruct Hx as [Hx Hns]. apply negb_true_iff in Hns.
+  destruct k as [|k']; [cbn in Hk; lia|].
+  change (flat_map pp_parens (x :: cs)) with (pp_parens x ++ flat_map pp_parens cs) in *.
+  assert (Hlx : length (pp_constr x) < n) by (unfold pp_parens in Hlen at 1; clear IH; lens).
+  assert (Hlr : length (flat_map pp_parens cs) < n) by (clear IH; lens).
+  unfold pp_parens at 1.
+  rewrite <- app_assoc. cbn [app p_many]. rewrite <- app_assoc. cbn [app].
+  rewrite (Sok_all n x _ Hx Hlx).
+  rewrite (unwrap_mk x Hns).
+  destruct cs as [|y cs'].
+  - cbn [flat_map app].
+    destruct r as [|t r0]; [reflexivity|].
+    destruct t as [s|s|z0|kk|p]; try reflexivity. destruct p; try reflexivity. contradiction.
+  - remember (flat_map pp_parens (y :: cs') ++ r) as tl eqn:Etl.
+    assert (Hrec : p_many n k' tl = Some (y :: cs', r)).
+    { subst tl. apply IH; auto; try congruence. cbn [length] in *. lia. }
+    assert (Hhd : exists rest, tl = TSym LParen :: rest).
+    { subst tl. cbn [flat_map]. unfold pp_parens at 1. cbn [app]. eexists. reflexivity. }
+    destruct Hhd as [rest Erest].
+    rewrite Hrec. rewrite Erest. reflexivity.
+Qed.
+
+Lemma pp_constr_set : forall cs, pp_constr (CSet cs) = flat_map pp_parens cs.
+Proof. reflexivity. Qed.
+
+Lemma parens_count : forall cs, length cs <= length (flat_map pp_parens cs).
+Proof.
+  induction cs as [|x cs IH]; [cbn; lia|].
+  cbn [flat_map]. unfold pp_parens at 1. lens.
+Qed.
+
+Lemma copt_ok : forall c n r,
+  wf_copt wf_top c = true -> length (pp_copt c) < n -> not_lparen r ->
+  p_copt n (pp_copt c ++ r) = Some (c, r).
+Proof.
+  intros [c|] n r Hwf Hlen Hr.
+  - cbn [wf_copt] in Hwf. destruct c as [| | | | | | |cs]; try discriminate.
+    cbn [wf_top] in Hwf. destruct cs as [|x cs]; [discriminate|].
+    cbn [pp_copt] in *. rewrite pp_constr_set in *.
+    assert (Hm : p_many n n (flat_map pp_parens (x :: cs) ++ r) = Some (x :: cs, r)).
+    { apply many_ok; auto; try congruence.
+      pose proof (parens_count (x :: cs)). lia. }
+    unfold p_copt. rewrite Hm.
+    cbn [flat_map]. unfold pp_parens at 1. reflexivity.
+  - cbn [pp_copt app]. unfold p_copt.
+    destruct r as [|t r0]; [reflexivity|].
+    destruct t as [s|s|z0|kk|p]; try reflexivity. destruct p; try reflexivity. contradiction.
+Qed.
+
+(* between SEQUENCE/SET and OF *)
+Lemma ofconstr_ok : forall c n r,
+  wf_copt wf_ofc c = true -> length (pp_copt c) < n ->
+  p_ofconstr n (pp_copt c ++ K KOF :: r) = Some (c, K KOF :: r).
+Proof.
+  intros [c|] n r Hwf Hlen.
+  - cbn [wf_copt] in Hwf. cbn [pp_copt] in *.
+    destruct c as [| | |s| | | |cs]; try discriminate.
+    + (* bare SIZE *)
+      unfold wf_ofc in Hwf.
+      assert (He := elem_ok n (Uok_all n) (Sok_all n) (CSize s) (K KOF :: r) Hwf ltac:(lia) ltac:(reflexivity)).
+      cbn [pp_constr app] in *. unfold p_ofconstr. rewrite He. reflexivity.
+    + cbn [wf_ofc] in Hwf. destruct cs as [|x [|? ?]]; try discriminate.
+      apply andb_prop in Hwf. destruct Hwf as [Hx Hns]. apply negb_true_iff in Hns.
+      cbn [pp_constr flat_map app] in *. rewrite app_nil_r in *.
+      unfold p_ofconstr. rewrite <- app_assoc. cbn [app].
+      rewrite (Sok_all n x _ Hx ltac:(lens)).
+      rewrite (mk_constraint_notset x Hns). reflexivity.
+  - reflexivity.
+Qed.
